@@ -92,9 +92,16 @@ Variable St : Type.                        (* optimiser state (distances, moment
 Variable opt : St -> St.                   (* one AdamW step: an external library *)
 Variable dist : St -> R.                   (* current distance of the ray *)
 Fixpoint run_steps (n : nat) (s : St) : St * nat := match n with O => (s, O) | S k => let (s', c) := run_steps k s in (opt s', S c) end.
-(* `test` is evaluated BEFORE the last optimiser step; the flag is computed from it *)
+(* `test` is evaluated BEFORE the last optimiser step, the sign of the distance after it; a hit needs both
+   (the unrepaired flag had the first conjunct only: a sphere behind the ray origin counted as hit) *)
 Definition sphere_check (f : R -> R) (thr : R) (n : nat) (s0 : St) : bool :=
+  match n with
+  | O => false
+  | S k => let s := fst (run_steps k s0) in andb (Rltb (Rabs (f (dist s))) thr) (Rleb 0 (dist (opt s)))
+  end.
+Definition sphere_check_unrepaired (f : R -> R) (thr : R) (n : nat) (s0 : St) : bool :=
   match n with O => false | S k => Rltb (Rabs (f (dist (fst (run_steps k s0))))) thr end.
+Definition sphere_distance (n : nat) (s0 : St) : R := dist (fst (run_steps n s0)).
 End Sphere.
 
 (* ------------------------------------------------------------------ executable copy over Q *)
